@@ -42,12 +42,14 @@ Definition half_edges (faces : list face) := half_edges_from 0 faces.
 
 Definition he_key_eqb (k : Z * Z) (u v : Z) : bool := (fst k =? u) && (snd k =? v).
 
-(* direct_face(u, v, True) = Some (F, iu, iv) | None *)
-Definition direct_face (faces : list face) (u v : Z) : option (Z * Z * Z) :=
-  match find (fun p => he_key_eqb (fst p) u v) (rev (half_edges faces)) with
+(* direct_face(u, v, True) = Some (F, iu, iv) | None ; H = the half-edge table, last writer first *)
+Definition he_table (faces : list face) := rev (half_edges faces).
+Definition df_lookup (H : list ((Z * Z) * (Z * Z * Z))) (u v : Z) : option (Z * Z * Z) :=
+  match find (fun p => he_key_eqb (fst p) u v) H with
   | Some p => Some (snd p)
   | None => None
   end.
+Definition direct_face (faces : list face) (u v : Z) : option (Z * Z * Z) := df_lookup (he_table faces) u v.
 
 (* ------------------------------------------------------------------ edges: interior / boundary
    is_edge_on_border(u,v): direct_face(u,v) is None or direct_face(v,u) is None *)
@@ -55,18 +57,20 @@ Definition ends (edges : list (Z * Z)) (e : Z) : Z * Z := znth edges e (0, 0).
 
 (* (e, d1, d2) for every interior edge e, with d1, d2 the results of the two direct_face calls of the rebuild *)
 Definition interior_info (faces : list face) (edges : list (Z * Z)) : list (Z * (Z * Z * Z) * (Z * Z * Z)) :=
+  let H := he_table faces in
   flat_map (fun e =>
     let ab := ends edges e in
     let q1 := df1_args (fst ab) (snd ab) in
     let q2 := df2_args (fst ab) (snd ab) in
-    match direct_face faces (fst q1) (snd q1), direct_face faces (fst q2) (snd q2) with
+    match df_lookup H (fst q1) (snd q1), df_lookup H (fst q2) (snd q2) with
     | Some d1, Some d2 => [(e, d1, d2)]
     | _, _ => []
     end) (zrange (zlen edges)).
 
 Definition interior_edges faces edges : list Z := map (fun t => fst (fst t)) (interior_info faces edges).
 Definition boundary_edges faces edges : list Z :=
-  filter (fun e => negb (memZ e (interior_edges faces edges))) (zrange (zlen edges)).
+  let I := interior_edges faces edges in
+  filter (fun e => negb (memZ e I)) (zrange (zlen edges)).
 
 (* ------------------------------------------------------------------ _build_cut_edges_tree *)
 Definition cut0 (edges : list (Z * Z)) (evisited : list Z) : list Z :=
